@@ -406,10 +406,10 @@ func TestFuzzSeeds(t *testing.T) {
 	}
 }
 
-// FuzzPipeline is the native coverage-guided target (oracle A). It is not run
-// by vcheck (a compiled test binary cannot drive `go test -fuzz`); launch it with
+// FuzzPipeline is the native coverage-guided target (oracle A). vcheck runs it as a
+// bounded campaign in the thorough tier (checks.d/C11.json "fuzz"); by hand:
 //
-//	cd /verif && GOFLAGS=-mod=mod GOPROXY=off GOSUMDB=off GOTOOLCHAIN=local \
+//	cd /verif && VERIF_FUZZING=1 GOFLAGS=-mod=mod GOPROXY=off GOSUMDB=off GOTOOLCHAIN=local \
 //	  go test ./checks/c11 -run '^$' -fuzz '^FuzzPipeline$' -fuzztime 20m
 //
 // A panic fails the input; a fatal error (stack overflow) or a hang kills the
@@ -417,11 +417,11 @@ func TestFuzzSeeds(t *testing.T) {
 // testdata/fuzz/FuzzPipeline (unit "fuzz" then replays it in every run).
 // Inputs that hit a root cause already listed in known_findings.d are skipped.
 func FuzzPipeline(f *testing.F) {
+	known := vk.FuzzStart(f)
 	names, data := fuzzSeeds()
 	for _, n := range names {
 		f.Add(data[n], false)
 	}
-	known := map[string]bool{"panic-gen-generator-generateformcontent": true}
 	f.Fuzz(func(t *testing.T, in []byte, strict bool) {
 		if len(in) > 256<<10 {
 			t.Skip()
@@ -431,10 +431,7 @@ func FuzzPipeline(f *testing.F) {
 		select {
 		case v := <-done:
 			if fnd := totality(v, "fuzz input", shape{}); fnd != nil {
-				if known[fnd.Classifier] {
-					t.Skip("known finding " + fnd.Classifier)
-				}
-				t.Fatalf("[%s] %s", fnd.Classifier, fnd.What)
+				vk.FuzzVerdict(t, known, fnd)
 			}
 		case <-time.After(10 * time.Minute):
 			panic("C11: pipeline did not return within 10 minutes")
